@@ -40,15 +40,15 @@ CHECKS = {
    note="The compaction counter comes from a harness model of the buffer and is coverage information only."),
  "C06": dict(engine="sim", cat="fault_enumeration", design="3/C06",
    technique="fault enumeration under a runtime monitor: all 1-bit, all 2-bit (short frames), burst <=16-bit and CRC-byte corruptions of base frames delivered to the production RTU parser; independent bitwise-CRC reference receiver decides acceptance; emission monitor re-parses every emitted frame",
-   text="Each corrupted frame gets its own session (after a sentinel) in server role (10 request frames) and client role (18 response / exception frames), delivered whole, byte-per-byte and randomly chunked. No handler call, reply or accepted response may result unless the independent receiver finds a CRC-valid frame. The enumerated classes are exhaustive per base frame as stated in the evidence.",
-   note="The CRC reference is self-checked against published vectors at start-up. Behaviour after a rejected frame on the same link is unspecified and not tested."),
+   text="Each corrupted frame gets its own session (after a sentinel) in server role (10 request frames) and client role (18 response / exception frames), delivered whole, byte-per-byte and randomly chunked. No handler call, reply or accepted response may result unless the independent receiver finds a CRC-valid frame. The enumerated classes are exhaustive per base frame as stated in the evidence. A used-link campaign repeats a sample of corruptions after 1-3 earlier exchanges on the same session (larger frames first), and a pty leg sends length-preserving corruptions to the real serial server task over a pseudo-terminal.",
+   note="The CRC reference is self-checked against published vectors at start-up. On a used link only the first corrupted frame after valid traffic is judged; what the receiver does with the bytes after a rejected frame is unspecified and not tested."),
  "C07": dict(engine="sim", cat="exploration", design="3/C07",
    technique="runtime monitoring under hostile input: panic hook + rustc overflow checks/debug assertions, transport poll counter (spin), virtual-time and wall-clock watchdogs (subprocess workers), follow-up session and follow-up request as liveness probes",
-   text="Grammar-aware mutations of valid traffic and raw random bytes, server and client roles, MBAP and RTU, all 36 decode levels with a formatting subscriber, random partitions; after the hostile stream the session must end on EOF/shutdown/handle drop, a fresh session on the same handler map must answer, the client handle must still complete requests and honour shutdown.",
+   text="Grammar-aware mutations of valid traffic and raw random bytes, server and client roles, MBAP and RTU, all 36 decode levels with a formatting subscriber, random partitions; after the hostile stream the session must end on EOF/shutdown/handle drop, a fresh session on the same handler map must answer, the client handle must still complete requests and honour shutdown; a flood of stale frames must not postpone a request's completion beyond its deadline (bounded progress). Thorough adds a libFuzzer+AddressSanitizer target over the same harness entry point (coverage-guided byte streams, both roles) and a Miri run of the session loop on a sample.",
    note="A non-yielding loop is reported only after the case fails to finish alone twice with a 10x budget. Multi-session isolation on a real server is in C15."),
  "C10": dict(engine="sim", cat="exploration", design="3/C10",
    technique="runtime monitor: exactly-once completion log keyed by request id + sequential reference of the client semantics giving the allowed result classes, over random event scripts in virtual time",
-   text="Scripts of 5-40 events over submit (three API styles, several handles), reply variants, partial reply, garbage, read error, EOF, write error, enable, disable, set-decode, shutdown, clone/drop handle, task abort and time advances around the deadlines; every request must complete exactly once with a class the history allows (no-connection only while down, timeout only after the deadline, shutdown only when the task is gone or try_send failed).",
+   text="Scripts of 5-40 events over submit (three API styles, several handles), reply variants, partial reply, garbage, read error, EOF, write error, enable, disable, set-decode, shutdown, clone/drop handle, task abort and time advances around the deadlines; every request must complete exactly once with a class the history allows (no-connection only while down, timeout only after the deadline, shutdown only when the task is gone or try_send failed), including sessions with a consecutive-timeout limit. A second leg runs the production TCP task on a multi-thread runtime against a flaky loopback server with eight concurrent submitters (all three API styles), a controller toggling enable/disable and a final shutdown or handle drop, checking the schedule-independent part: one completion per request, Ok only with that request's own payload, Shutdown only once the task is going away.",
    note="The outer reconnect loop is composed from hooked primitives in the same order as the production task (harness code); the production task is exercised black-box in C13/C14."),
  "C11": dict(engine="sim", cat="exploration", design="3/C11",
    technique="runtime monitor: unique-payload history checker (every peer reply carries a unique serial) + write-log order / id-arithmetic / one-outstanding checks",
@@ -56,7 +56,7 @@ CHECKS = {
    note="Lateness is decided from measured delivery instants; exact ties with a deadline are skipped and counted."),
  "C12": dict(engine="sim", cat="exploration", design="3/C12",
    technique="runtime monitor in virtual time: completion instants checked against t_tx+T from the transport log; exhaustive outcome-sequence enumeration for the consecutive-timeout limit",
-   text="Per-request timeouts from 0 ns to 1 h, replies arriving never / whole / split around the deadline; a timeout must complete within [deadline, deadline+1ms], an earlier complete reply must succeed with its data, the next request must still work. All outcome sequences over {timeout, success, exception, bad reply} up to length 4 (quick) / 6 (thorough) x limits {none,1,2,3,4}: the session must end exactly at the N-th consecutive timeout.",
+   text="Per-request timeouts from 0 ns to 1 h, replies arriving never / whole / split around the deadline; a timeout must complete within [deadline, deadline+1ms], an earlier complete reply must succeed with its data, the next request must still work; stale and foreign-id frames arriving before the deadline must not move it. All outcome sequences over {timeout, success, exception, bad reply} up to length 4 (quick) / 6 (thorough) x limits {none,1,2,3,4}: the session must end exactly at the N-th consecutive timeout.",
    note="1 ms timer granularity and exact ties are accepted either way (documented in DESIGN.md 2.5)."),
  "C20": dict(engine="sim", cat="exploration", design="3/C20",
    technique="differential runtime monitor: same script executed at decode level nothing, maximum, random and with a level change injected at every position; full observation records (bytes+virtual timestamps, results+instants, handler log, state, session end) must be equal",
@@ -70,10 +70,10 @@ CHECKS = {
  "C13": dict(engine="net", cat="exploration", design="3/C13",
    technique="online trace automaton on the connection-state listener stream with the listener callback used as a lock-step gate; accept counter, request-result and JoinHandle monitors",
    text="The real TCP client task runs against a harness-owned listener; at every state notification the task is parked while one user event (enable, disable, shutdown, drop handles, submit) and the environment for the next attempt (refused, accept+close, accept+garbage, accept+silent, served) are injected. Checked: legal transitions, expected successor when nothing is pending, Disabled after disable, no accept while Disabled, no-connection for requests submitted while down, Shutdown once and last, handles report shutdown, task terminates.",
-   note="Wall-clock only as watchdog. A request queued at the Connecting gate may legitimately be served when the connect completes in its first poll (measured and reported). The serial (pty) analogue is not part of the quick tier."),
+   note="Wall-clock only as watchdog. A request queued at the Connecting gate may legitimately be served when the connect completes in its first poll (measured and reported). A serial (pty) leg runs the same automaton on the serial client task: port open failures and re-opens, disable/enable, shutdown."),
  "C14": dict(engine="net", cat="exploration", design="3/C14",
    technique="model comparison of the public strategy object over enumerated call sequences (panic = violation) + runtime monitor with a logging wrapper strategy on the real TCP client task (call-log grammar, announced delay == returned value, measured wait >= delay)",
-   text="Strategy object: all (min,max) pairs of a lattice up to Duration::MAX, all sequences over {fail, disconnect, reset} up to length 7 (quick) / 9 (thorough) plus runs of 70/130 failures. Task level: outcome sequences of 2-10 over {refused, accepted then closed, accepted then garbage} with min 20 ms / max 160 ms.",
+   text="Strategy object: all (min,max) pairs of a lattice up to Duration::MAX, all sequences over {fail, disconnect, reset} up to length 7 (quick) / 9 (thorough) plus runs of 70/130 failures. Task level: outcome sequences of 2-10 over {refused, accepted then closed, accepted then garbage} with min 20 ms / max 150 ms, with enable/disable/decode-level commands issued during the waits (a command must not shorten or restart the wait); the same monitor on the serial client (open retry on a pty that disappears) and the RTU server task (port retry).",
    note="Pairs with min > max are excluded (statement is contradictory there). Only the lower bound of a wait is a verdict."),
  "C15": dict(engine="net", cat="exploration", design="3/C15",
    technique="black-box history checker: alive/closed vector of real sockets after every event compared with an ordered-list model of the session tracker",
@@ -86,8 +86,8 @@ CHECKS = {
 
  "C18": dict(engine="ffi", cat="exploration", design="3/C18",
    technique="differential runtime monitor: the same scenario through the extern C surface and through the Rust API, outcomes mapped through an independent name table; callback-lifecycle counters (completion exactly once, on_destroy exactly once); AddressSanitizer / Miri legs in the thorough tier",
-   text="All eight client operations x outcomes (genuine, 9 standard + all 256 raw exception codes, bad response, bad framing, close, silence, no listener, queue full, handle destroyed, runtime destroyed) against a scripted loopback peer; request bytes vs the reference encoder; measured timeouts; a C write handler answering success / each standard exception / raw codes for all four write functions observed by a raw client; 36 decode levels through both APIs with the C logger installed; client and port state listeners.",
-   note="The harness is Rust linking the rodbus-ffi rlib and calling only generated extern \"C\" functions with extern \"C\" callbacks (no C compiler involved). Completion callbacks for calls rejected for a parameter error before queueing are don't-care; on_destroy is not."),
+   text="All eight client operations x outcomes (genuine, 9 standard + all 256 raw exception codes, bad response, bad framing, close, silence, no listener, queue full, handle destroyed, runtime destroyed) against a scripted loopback peer; request bytes vs the reference encoder; measured timeouts; a C write handler answering success / each standard exception / raw codes for all four write functions observed by a raw client; 36 decode levels through both APIs with the C logger installed; client and port state listeners; configuration pass-through (TLS minimum version and certificate mode cells against the independent TLS peer, retry strategy delays measured, serial flow control / stop bits read back from the pty).",
+   note="The harness is Rust linking the rodbus-ffi rlib and calling only generated extern \"C\" functions with extern \"C\" callbacks (no C compiler involved). Completion callbacks for calls rejected for a parameter error before queueing are don't-care; on_destroy is not. A pty forces 8 data bits / no parity and has no baud rate, so only flow control and stop bits of the serial settings are observable."),
  "C19": dict(engine="ffi", cat="exploration", design="3/C19",
    technique="model comparison (HashMap reference) of every rodbus_database_* return value and of raw-socket reads; torn-read detector under multi-thread stress with injected yields inside the transaction callback, overlap counter",
    text="Random add/update/delete/get sequences over four point types and six indices inside configure and transaction callbacks, interleaved with wire reads (exception 02 when a point is absent); stress with 3 writer threads setting 50 registers to one fresh value per transaction and 6 raw clients reading all 50 in one request, counting reads that overlapped an open transaction.",
